@@ -7,6 +7,11 @@
    value    = VZ int | VL list-of-int (list / deque drained by rule streak) | VM ordered mapping int->int
               (dict / OrderedDict drained by rule streak, logged as (key, value) items = VP)
    share    = data (insertion-ordered fields), stamp (None = never stamped), deck
+   deck entry = DMap ordered mapping int->int (incl. the EMPTY mapping {}, which is falsy but IS a mapping:
+              logDeck writes a record of bare tabs for it) | DOther o, any entry that is not a Mapping:
+              ONone (a literal None: Share.push / Deck.push accept it), OInt (incl. 0), OStr code points
+              (incl. ''), OList (incl. []).  logDeck pulls `while loggee.deck` (the LENGTH of the deque, never
+              the truth value of an entry), so every DOther entry is consumed and skipped, falsy or not.
    file     = list of lines: Hdr rule columns | Rec time cells   (cell None = bare tab, the
               field is not in the loggee / deck entry)
    Not modelled: field deletion, binary kind, console output,
@@ -18,7 +23,8 @@ Open Scope Z_scope.
 Inductive val := VZ (z : Z) | VL (l : list Z) | VM (m : list (Z * Z)) | VP (k v : Z).
 Definition key := Z.
 Definition data := list (key * val).
-Inductive dentry := DMap (m : list (key * Z)) | DOther (z : Z).
+Inductive other := ONone | OInt (z : Z) | OStr (s : list Z) | OList (l : list Z).
+Inductive dentry := DMap (m : list (key * Z)) | DOther (o : other).
 
 Record share := { sdata : data; sstamp : option Z; sdeck : list dentry }.
 
